@@ -80,6 +80,11 @@ def check_frame(out, rng, fr, sess, pending):
                            f'posterior (rescale={rs}) differs from Kerman eq. 5: loc {loc[:3]} vs {kl[:3]}, scale {scale[:3]} vs {ks[:3]}, df {df} vs {kdf}')
       return
   loc, scale, df = en.real_posterior(m, 1.0)
+  if not np.all(scale > 0) or not np.all(np.isfinite(scale)):
+    # zero residual variance (e.g. three pre-period points on a line): the posterior scale is 0, there is no Student-t
+    # distribution to summarise; outside the claim
+    out.count(None)
+    return
   # layout independence
   if cond:
     for name, rows in variants(rng, fr).items():
